@@ -467,30 +467,59 @@ func c09Handoff(c *Ctx) {
 	rule := "C09/handoff"
 	lg := c.Fn("cmd/rdpgw/protocol", "Gateway.handleLegacyProtocol")
 	outF := c.FieldVar("cmd/rdpgw/protocol", "Tunnel", "transportOut")
+	// the store may sit in the handler or in a helper it calls (attachLegacyOut); the publication must
+	// follow it in the same function
 	var store *ssa.Store
-	eachInstr(lg, func(in ssa.Instruction) {
-		if s, ok := in.(*ssa.Store); ok {
-			if _, f, ok := fieldOfAddr(s.Addr); ok && f == outF {
-				store = s
-			}
+	var storeFn *ssa.Function
+	for _, sf := range scopeFuncs(lg, 1) {
+		if sf.Parent() != nil {
+			continue
 		}
-	})
+		sf := sf
+		eachInstr(sf, func(in ssa.Instruction) {
+			if s, ok := in.(*ssa.Store); ok {
+				if _, f, ok := fieldOfAddr(s.Addr); ok && f == outF {
+					store, storeFn = s, sf
+				}
+			}
+		})
+	}
 	if store == nil {
 		c.Undecided(rule, "handleLegacyProtocol transportOut", lg.Pos(), "no store to Tunnel.transportOut")
 		return
 	}
 	// a cache Set of the tunnel after the store, in the same branch
 	pub := false
-	for _, ci := range callsIn(lg) {
-		if strings.HasSuffix(calleeName(ci), cachePkg+".cache).Set") && dominatesInstr(store, ci.(ssa.Instruction)) && ci.Block() == store.Block() {
-			pub = true
+	nSet := 0
+	for _, ci := range callsIn(storeFn) {
+		if strings.HasSuffix(calleeName(ci), cachePkg+".cache).Set") {
+			nSet++
+			if dominatesInstr(store, ci.(ssa.Instruction)) && ci.Block() == store.Block() {
+				pub = true
+			} else if reachableBlock(storeFn, ci.Block(), store.Block()) && ci.Block() != store.Block() || ci.Block() == store.Block() && instrIndex(ci.(ssa.Instruction)) < instrIndex(store) {
+				pub = false // published before the write
+				nSet = -100
+			}
 		}
 	}
+	if storeFn != lg {
+		// the helper's caller must not have published the tunnel before calling it
+		for _, ci := range callsIn(lg) {
+			if ci.Common().StaticCallee() == storeFn {
+				for _, cj := range callsIn(lg) {
+					if strings.HasSuffix(calleeName(cj), cachePkg+".cache).Set") && cj.Block() == ci.Block() && instrIndex(cj.(ssa.Instruction)) < instrIndex(ci.(ssa.Instruction)) {
+						pub = false
+					}
+				}
+			}
+		}
+	}
+	pub = pub && nSet > 0
 	c.Check(pub, rule, "handleLegacyProtocol publication", store.Pos(), "Tunnel.transportOut is written before the tunnel is published in the connection cache (go-cache's mutex orders the IN handler's read after it)", "the OUT handler publishes the tunnel before (or without) its last write to transportOut: the IN handler can read a half-initialised tunnel")
 	// HTTP/2 disabled
 	mainFn := c.Fn("cmd/rdpgw", "main")
 	h2off := false
-	eachInstr(mainFn, func(in ssa.Instruction) {
+	c.eachMainInstr(func(in ssa.Instruction) {
 		if s, ok := in.(*ssa.Store); ok {
 			if _, f, ok := fieldOfAddr(s.Addr); ok && f.Name() == "TLSNextProto" {
 				if _, isMk := s.Val.(*ssa.MakeMap); isMk {
